@@ -4,6 +4,7 @@ model/Html.v with the real router on histories of stop / pause / resume /
 deploy / rollout commands (virtual clock), including byte-for-byte comparison
 of every 503 body with render503; the monitor corr/C08corr.c08_monitor on the
 observed histories."""
+import collections
 import random
 
 import m4
@@ -371,6 +372,41 @@ def run(tier, seed):
                     if bad:
                         pages_bad.append((j, g, bad))
         res.coverage["custom_pages_replaced_between_deploys"] = {"scenarios": len(pgs), "answers_judged": pages_n, "bad": len(pages_bad)}
+        # ---- many answers at once, real scheduler (harness/c08_race_test.go): distinct answers judged by the same rendering
+        race_bad, race_rows = [], []
+        if harness_ok and ok and page is not None:
+            rr = random.Random(seed * 41 + 9)
+            race_msgs = []
+            while len(race_msgs) < 3:
+                m = gen_msg(rr, False)
+                if len(m) >= 8 and m not in race_msgs:
+                    race_msgs.append(m)
+            race_msgs[2] = race_msgs[2] * 40          # one long message: rendering it takes a while
+            renv = {"VERIF_OUT": work.path("c08race.jsonl"), "VERIF_ROUNDS": "250" if tier == "quick" else "2500"}
+            renv.update({"VERIF_MSG_%d" % i: m.hex() for i, m in enumerate(race_msgs)})
+            rc_r, race_out = go_test(work, m4x.SIM_FILES + ["c08_race_test.go"], "^TestVerifC08Race$", renv, synctest=True, timeout=900)
+            if rc_r != 0 or not os.path.exists(work.path("c08race.jsonl")):
+                harness_ok, gout = False, race_out
+            else:
+                race_rows = read_jsonl(work.path("c08race.jsonl"))
+                # (a tree that mixes pages up yields hundreds of distinct answers: the 24 shortest are judged)
+                stopped = sorted([r for r in race_rows if r["stopped"]], key=lambda r: (len(r["body"]), r["host"], r["body"]))[:24]
+                items = ["(%s, %s, [(false, (%d)%%N, false, %s)])" % (bool_lit(r["custom"]), str_lit(bytes.fromhex(r["msg"])), max(r["status"], 0),
+                                                                   str_lit(bytes.fromhex(r["body"]))) for r in stopped]
+                defs_r = ("Definition pg_pre : str := %s.\nDefinition pg_suf : str := %s.\n"
+                          "Definition env := mkEnv (mkPage pg_pre %s %s %s pg_suf) (%s, %s).\n"
+                          % (str_lit(page[0]), str_lit(page[4]), str_lit(page[1]), str_lit(page[2]), str_lit(page[3]),
+                             str_lit(CUSTOM[0]), str_lit(CUSTOM[1])))
+                rows = m4x.coq_map(work, IMPORTS.replace("corr.C08corr.", "corr.C08corr corr.C08held."), defs_r, items,
+                                   "fun x : bool * str * list held_obs => let '(c, m, l) := x in c08_held_bad env c m l", "C08race", shard=4)
+                race_bad = [r for r, bad in zip(stopped, rows) if bad]
+                nobody = [r for r in race_rows if not r["stopped"]]
+                if len(nobody) > 1 or any(r["status"] != 404 for r in nobody):
+                    race_bad += sorted(nobody, key=lambda r: r["count"])[:max(1, len(nobody) - 1)]
+        res.coverage["many_answers_at_once_real_scheduler"] = {
+            "answers": sum(r["count"] for r in race_rows), "distinct_answers": len(race_rows),
+            "per_host": {h: sum(r["count"] for r in race_rows if r["host"] == h) for h in sorted({r["host"] for r in race_rows})},
+            "wrong_distinct_answers": len(race_bad)}
         res.coverage["held_by_a_pause_when_stopped"] = {"scenarios": len(held), "answers_judged": held_n,
                                                         "with_a_repeated_pause": sum(1 for x in held if x["repeat"]), "bad": len(held_bad)}
         # ---- judge
@@ -444,6 +480,15 @@ def run(tier, seed):
                     "status": rr.get("status"), "served_by": rr.get("served_by"), "location": rr.get("location"),
                     "body_len": len(body), "body_excerpt": (body if len(body) < 400 else body[-400:]).decode("latin-1")})
             return p
+        if race_bad and not mon_fail and not held_bad and not pages_bad:
+            res.violation("race", {
+                "property": "C08", "seed": seed, "tier": tier,
+                "what": "requests for stopped services answered at the same moment (16 goroutines, real scheduler): every answer must be 503 "
+                        "with the page of that service rendered with that service's message (corr/C08held.c08_held_bad); an unknown host 404",
+                "stop_messages": [m.decode("latin1") for m in race_msgs],
+                "wrong_answers": [{"host": r["host"], "status": r["status"], "times": r["count"],
+                                   "body": bytes.fromhex(r["body"]).decode("latin1")[:400]} for r in race_bad[:5]],
+                "replay": "VERIF_MSG_0..2=<hex of the messages> go test -tags verif -overlay ... -run ^TestVerifC08Race$ (harness/c08_race_test.go)"})
         if pages_bad and not mon_fail and not held_bad:
             j, g, bad = pages_bad[0]
             rs = {r["id"]: r for r in p_outs[j]["results"]}
